@@ -89,10 +89,14 @@ def main():
                 sh(["git", "-C", "/repo", "worktree", "remove", "--force", wt])
                 shutil.rmtree(base, ignore_errors=True)
     allrc = 0
+    rec = {}
     for pid, rc, out, dt in results:
         v = [l for l in out.splitlines() if l.startswith("VIOLATION")]
         det = rc != 0 and bool(v)
         print("SEEDED %s %s rc=%d detected=%s wall=%.0fs %s" % (name, pid, rc, "yes" if det else "no", dt, v[0] if v else ""))
+        first = next((l.strip() for l in out.splitlines() if l.startswith("  ")), "")
+        rec[pid] = {"tier": tier[2:], "rc": rc, "detected": det, "violation_line": v[0] if v else None,
+                    "first_report": first[:400], "mode": "in-place" if "--in-place" in flags else "isolated copy"}
         if not det:
             allrc = 1
             print("   tail:", " | ".join(out.splitlines()[-4:])[:600])
@@ -101,6 +105,12 @@ def main():
                 if l.startswith("   ") or l.startswith("  "):
                     print("   " + l.strip()[:300])
                     break
+    meta = os.path.join(os.path.dirname(patch), "meta.json")
+    if "--record" in flags and os.path.exists(meta) and os.path.dirname(patch).startswith(os.path.join(VERIF, "seeded")):
+        import json
+        m = json.load(open(meta))
+        m.setdefault("detection", {}).update(rec)
+        json.dump(m, open(meta, "w"), indent=1)
     return allrc
 
 
